@@ -14,7 +14,7 @@
                   insertion-order result is given.
      lrange / lrr / lrack : the leader path; <partitions> is the CLUSTER.
                   "<as range / rr / rack, computed by leader_range / leader_rr / on leader_partitions>
-                  req=<extract_topics, hex joined by ',', or '-'>"
+                  req=<leader_requests: r1;r2;...  r = hex topics joined by ',', '-' = empty request>"
      MODELINCONSISTENT when rack_assign / rack_assign_canonical / rack_assign_topic disagree, or
      leader_partitions / leader_rack disagree with read_partitions / rack_assign. *)
 open C14_model
@@ -127,16 +127,26 @@ let eval_rack (ms : member list) (ps : partition list) : string =
   else if per_topic = [] then "-"
   else String.concat ";" (List.map snd (List.sort (fun (a, _) (b, _) -> compare a b) per_topic))
 
-let req_of (ms : member list) : string =
-  match extract_topics ms with
-  | [] -> "-"
-  | l -> String.concat "," (List.map hex_of_bytes l)
+(* the journal of metadata requests: r1;r2;...  r = hex topics joined by ',' ("-" = empty request) *)
+let req_of (ms : member list) (cluster : partition list) : string =
+  String.concat ";" (List.map (fun r ->
+      match r with
+      | [] -> "-"
+      | l -> String.concat "," (List.map hex_of_bytes l)) (leader_requests ms cluster))
+
+(* leader_partitions against its parts: bulk read, else the per-topic fallback *)
+let leader_partitions_ok (ms : member list) (cluster : partition list) : bool =
+  let topics = extract_topics ms in
+  leader_partitions ms cluster =
+  (match broker_read cluster topics with
+   | Some ps -> ps
+   | None -> if List.length topics > 1 then read_each cluster topics else [])
 
 let eval_lrack (ms : member list) (cluster : partition list) : string =
   let lp = leader_partitions ms cluster in
   let pbt = partitions_by_topic lp in
   let zo t = zones_of (aget t pbt) in
-  if lp <> read_partitions cluster (extract_topics ms)
+  if not (leader_partitions_ok ms cluster)
   || leader_rack zo zo ms cluster <> rack_assign zo zo ms lp
   || leader_rack zo zo ms cluster <> rack_assign_canonical ms lp
   then "MODELINCONSISTENT"
@@ -146,13 +156,18 @@ let eval (op : string) (a : string list) : string =
   match op, a with
   | "lrange", [m; p] ->
     let ms = parse_members m in
-    canon_triples (leader_range ms (parse_partitions p)) ^ " req=" ^ req_of ms
+    let cl = parse_partitions p in
+    if not (leader_partitions_ok ms cl) then "MODELINCONSISTENT" else
+    canon_triples (leader_range ms cl) ^ " req=" ^ req_of ms cl
   | "lrr", [m; p] ->
     let ms = parse_members m in
-    canon_triples (leader_rr ms (parse_partitions p)) ^ " req=" ^ req_of ms
+    let cl = parse_partitions p in
+    if not (leader_partitions_ok ms cl) then "MODELINCONSISTENT" else
+    canon_triples (leader_rr ms cl) ^ " req=" ^ req_of ms cl
   | "lrack", [m; p] ->
     let ms = parse_members m in
-    eval_lrack ms (parse_partitions p) ^ " req=" ^ req_of ms
+    let cl = parse_partitions p in
+    eval_lrack ms cl ^ " req=" ^ req_of ms cl
   | "range", [m; p] -> canon_triples (range_assign (parse_members m) (parse_partitions p))
   | "rr", [m; p] -> canon_triples (rr_assign (parse_members m) (parse_partitions p))
   | "rack", [m; p] -> eval_rack (parse_members m) (parse_partitions p)
